@@ -905,7 +905,7 @@ func c01NodeStage(c *Ctx, name string, cases []*c01Case, fragment bool) error {
 		} else {
 			// only triggers of OPEN known findings count
 			var ids []string
-			for _, id := range c01SwClassify(b.cs.src) {
+			for _, id := range append(c01SwClassify(b.cs.src), c01ClassifyExtra(b.cs.src)...) {
 				if c01OpenTriggers[id] {
 					ids = append(ids, id)
 				}
@@ -926,6 +926,84 @@ func c01NodeStage(c *Ctx, name string, cases []*c01Case, fragment bool) error {
 
 func (cs *c01Case) cfg() string {
 	return fmt.Sprintf("version=%d keepVarNames=%v", cs.ver, !cs.rename)
+}
+
+// c01ClassifyExtra: syntactic triggers of known findings found after the sweep generator was written.
+// "S14-param-default-var": a function whose parameter list has a default value mentioning an identifier that the body of
+// the same function declares with `var` (parse/v2 binds the body's uses of that name to the outer variable).
+func c01ClassifyExtra(src string) []string {
+	var out []string
+	isID := func(c byte) bool { return c == '_' || c == '$' || c >= '0' && c <= '9' || c >= 'a' && c <= 'z' || c >= 'A' && c <= 'Z' }
+	idents := func(t string) map[string]bool {
+		m := map[string]bool{}
+		for i := 0; i < len(t); {
+			if isID(t[i]) && !(t[i] >= '0' && t[i] <= '9') {
+				j := i
+				for j < len(t) && isID(t[j]) {
+					j++
+				}
+				m[t[i:j]] = true
+				i = j
+			} else {
+				i++
+			}
+		}
+		return m
+	}
+	match := func(i int, open, close byte) int { // index after the matching bracket, -1 if none
+		depth := 0
+		for ; i < len(src); i++ {
+			switch src[i] {
+			case open:
+				depth++
+			case close:
+				depth--
+				if depth == 0 {
+					return i + 1
+				}
+			}
+		}
+		return -1
+	}
+	for i := 0; i+8 < len(src); i++ {
+		if !strings.HasPrefix(src[i:], "function") || (i > 0 && isID(src[i-1])) {
+			continue
+		}
+		po := strings.IndexByte(src[i:], '(')
+		if po < 0 {
+			break
+		}
+		pe := match(i+po, '(', ')')
+		if pe < 0 {
+			break
+		}
+		params := src[i+po : pe]
+		if !strings.Contains(params, "=") {
+			continue
+		}
+		bo := strings.IndexByte(src[pe:], '{')
+		if bo < 0 {
+			continue
+		}
+		be := match(pe+bo, '{', '}')
+		if be < 0 {
+			continue
+		}
+		body := src[pe+bo : be]
+		used := idents(params)
+		for j := 0; j+4 < len(body); j++ {
+			if strings.HasPrefix(body[j:], "var ") && (j == 0 || !isID(body[j-1])) {
+				k := j + 4
+				for k < len(body) && isID(body[k]) {
+					k++
+				}
+				if used[body[j+4:k]] {
+					return append(out, "S14-param-default-var")
+				}
+			}
+		}
+	}
+	return out
 }
 
 // ---------- known findings, regression corpus, sweep ----------
@@ -1011,6 +1089,10 @@ func c01Sweep(c *Ctx) error {
 	var cases []*c01Case
 	rejected := 0
 	for _, src := range progs {
+		if strings.Contains(src, "...this") || strings.Contains(src, " in this") || strings.Contains(src, " of this") {
+			// enumerating the global object observes the creation order of global `var`s, which hoisting may change
+			continue
+		}
 		for _, rename := range []bool{true, false} {
 			out, err, crash := c01Minify(src, 0, !rename)
 			if crash != "" {
